@@ -265,6 +265,9 @@ struct Recipe {
   sub: Layer,
   /// reuse this sequence number (probe after a GAP)
   fixed_sn: Option<i64>,
+  /// address the unit to the local reader of this slot although its writer id is the one of `slot`
+  /// (e.g. a bootstrap writer id in front of a user reader)
+  reader_slot: Option<usize>,
 }
 
 #[derive(Clone, Debug)]
@@ -401,7 +404,7 @@ impl<'a> Gen<'a> {
     let (reader_id, writer_id) = if to_writer {
       (self.ids.remote_readers[src][r.slot], if r.unknown_receiver { wire::ENTITYID_UNKNOWN } else { self.ids.local_writers[r.slot] })
     } else {
-      (if r.unknown_receiver { wire::ENTITYID_UNKNOWN } else { self.ids.local_readers[r.slot] }, self.ids.remote_writers[src][r.slot])
+      (if r.unknown_receiver { wire::ENTITYID_UNKNOWN } else { self.ids.local_readers[r.reader_slot.unwrap_or(r.slot)] }, self.ids.remote_writers[src][r.slot])
     };
     // ---- payload level
     let mut pay = Layer::None;
@@ -502,10 +505,10 @@ impl<'a> Gen<'a> {
   /// the recipe that applies exactly the protection the configuration requires
   fn correct(&self, kind: UKind, slot: usize, unknown_receiver: bool) -> Recipe {
     let q = req_of(self.conf, slot, kind.to_writer());
-    Recipe { kind, slot, unknown_receiver, pay: if q.pay && kind.has_payload() { Layer::Peer } else { Layer::None }, sub: if q.sub { Layer::Peer } else { Layer::None }, fixed_sn: None }
+    Recipe { kind, slot, unknown_receiver, pay: if q.pay && kind.has_payload() { Layer::Peer } else { Layer::None }, sub: if q.sub { Layer::Peer } else { Layer::None }, fixed_sn: None, reader_slot: None }
   }
   fn plain(&self, kind: UKind, slot: usize, unknown_receiver: bool) -> Recipe {
-    Recipe { kind, slot, unknown_receiver, pay: Layer::None, sub: Layer::None, fixed_sn: None }
+    Recipe { kind, slot, unknown_receiver, pay: Layer::None, sub: Layer::None, fixed_sn: None, reader_slot: None }
   }
 
   fn header(&self, prefix_of: Layer) -> Vec<u8> {
@@ -667,7 +670,7 @@ impl<'a> Gen<'a> {
     };
     let sub = layer(&mut self.rng, q.sub, slot, true);
     let pay = if kind.has_payload() { layer(&mut self.rng, q.pay, slot, false) } else { Layer::None };
-    Recipe { kind, slot, unknown_receiver, pay, sub, fixed_sn: None }
+    Recipe { kind, slot, unknown_receiver, pay, sub, fixed_sn: None, reader_slot: None }
   }
 
   /// a genuine, correctly protected unit whose SEC_PREFIX / body / SEC_POSTFIX are used as raw
@@ -886,6 +889,19 @@ impl<'a> Gen<'a> {
     self.emit_raw(Layer::Peer, parts, vec![(p.unit, true, false)], layout);
   }
 
+  /// plaintext DATA / DATAFRAG that carries the writer id of one of the three bootstrap topics (exempt from rtps
+  /// protection) but names a USER reader explicitly: the exemption belongs to the bootstrap readers, not to
+  /// whoever claims a bootstrap writer id. Judged by the first rule only, at the reader it lands in.
+  fn bootstrap_writer_id_to_user_reader(&mut self) {
+    self.cur_src = self.rng.below(2) as usize;
+    let wslot = *self.rng.pick(&[EP_SPDP, EP_STATELESS, EP_VOLATILE]);
+    let rslot = *self.rng.pick(&[EP_OPEN, EP_OPEN, EP_PROT]);
+    let kind = if self.rng.chance(3, 4) { UKind::Data } else { UKind::DataFrag };
+    let r = Recipe { kind, slot: wslot, unknown_receiver: false, pay: Layer::None, sub: Layer::None, fixed_sn: None, reader_slot: Some(rslot) };
+    let p = self.make(&r);
+    self.emit_raw(Layer::Peer, p.pieces.clone(), vec![(p.unit, false, false)], "bootstrap-writer-id-to-user-reader");
+  }
+
   /// deterministic backbone: every endpoint x observable kind x receiver id form, once in
   /// plaintext and once exactly as the configuration requires, each in its own clean datagram
   fn sweep(&mut self) {
@@ -1003,6 +1019,9 @@ fn run_case(seed: u64, index: u64, acc: &mut Acc) -> Option<Outcome> {
         7..=8 => g.wrong_srtps(),
         _ => g.wrong_context(),
       }
+    }
+    for _ in 0..2 {
+      g.bootstrap_writer_id_to_user_reader();
     }
     // the order of arrival is random, the probes come last
     let mut order: Vec<usize> = (0..g.dgrams.len()).collect();
@@ -1316,7 +1335,7 @@ pub fn run_c17(args: &Args) -> i32 {
   net::set_policy_drop_all();
   let mut rep = Report::new(
     args,
-    "each case = one governance document (case index mod 27 enumerates rtps x metadata x data protection kind in {NONE,SIGN,ENCRYPT}; origin authentication, decoy rules, expression spelling random) from which real plugins for the receiver, two genuine peers and two imposters are configured (peer2's user writers/readers carry the entity ids of peer1's endpoints on the other topic, so both of the receiver's user readers know a writer with each entity id; (case index / 27) mod 2 chooses which of the two user readers has the smaller entity id), and 130-200 datagrams built by the independent wire builder: a sweep per genuine peer (every endpoint {protected, unprotected, SPDP, stateless, key-exchange} x {DATA, DATAFRAG, GAP, ACKNACK, NACKFRAG} x {explicit receiver id, ENTITYID_UNKNOWN}, once as plaintext and once protected exactly as required) plus random clean datagrams (1-4 units, each required level independently present / absent / made by an imposter with wrong keys / by an unregistered participant / with the keys of another endpoint / by the other genuine peer, HEARTBEAT and HEARTBEATFRAG and INFO_TS/DST/SRC/REPLY mixed in) plus wrong secure sequences (SEC_BODY alone, SEC_POSTFIX alone, prefix + two submessages, prefix without postfix then plaintext, reordered and nested triples, plaintext transplanted between a genuine prefix and postfix, prefix carried over to the next datagram, SRTPS_PREFIX not first / without postfix / trailing or inserted plaintext / inside a SEC_PREFIX, INFO_DST for another participant), injected in random order; GAPs are observed through a correctly protected probe DATA with the GAP's sequence number sent last; distinct/non-trivial = hash of (configuration, every unit's layout, kind, endpoint, receiver-id form and protection) of a case in which at least one id was delivered and at least one was withheld",
+    "each case = one governance document (case index mod 27 enumerates rtps x metadata x data protection kind in {NONE,SIGN,ENCRYPT}; origin authentication, decoy rules, expression spelling random) from which real plugins for the receiver, two genuine peers and two imposters are configured (peer2's user writers/readers carry the entity ids of peer1's endpoints on the other topic, so both of the receiver's user readers know a writer with each entity id; (case index / 27) mod 2 chooses which of the two user readers has the smaller entity id), and 130-200 datagrams built by the independent wire builder: a sweep per genuine peer (every endpoint {protected, unprotected, SPDP, stateless, key-exchange} x {DATA, DATAFRAG, GAP, ACKNACK, NACKFRAG} x {explicit receiver id, ENTITYID_UNKNOWN}, once as plaintext and once protected exactly as required) plus random clean datagrams (1-4 units, each required level independently present / absent / made by an imposter with wrong keys / by an unregistered participant / with the keys of another endpoint / by the other genuine peer, HEARTBEAT and HEARTBEATFRAG and INFO_TS/DST/SRC/REPLY mixed in) plus wrong secure sequences (SEC_BODY alone, SEC_POSTFIX alone, prefix + two submessages, prefix without postfix then plaintext, reordered and nested triples, plaintext transplanted between a genuine prefix and postfix, prefix carried over to the next datagram, SRTPS_PREFIX not first / without postfix / trailing or inserted plaintext / inside a SEC_PREFIX, INFO_DST for another participant) plus two plaintext DATA/DATAFRAG per case that carry a bootstrap writer id (SPDP, stateless, key exchange) but name a user reader explicitly, injected in random order; GAPs are observed through a correctly protected probe DATA with the GAP's sequence number sent last; distinct/non-trivial = hash of (configuration, every unit's layout, kind, endpoint, receiver-id form and protection) of a case in which at least one id was delivered and at least one was withheld",
   );
   rep.assume("observation points: the TopicCache of each of the five readers (every change the Reader stored; attributed by the id in the payload, or by writer and sequence number when the payload is not a plain sample), then DataReader::take on each (best-effort, KeepAll), and the acknack channel; HEARTBEAT / HEARTBEATFRAG / INFO_* are injected but not observed (a best-effort reader ignores heartbeats); a GAP is observed only through its effect on a later DATA");
   rep.assume("access control state is built from an unsigned governance document through the C18 hook (signature checking is C18's subject); authentication is a stand-in that supplies identity handles and a shared secret; cryptography and access control attribute answers are the real builtin plugins reached through SecurityPlugins");
